@@ -45,6 +45,12 @@ C20_Clauses(cfg, h) ==
                        /\ (cfg.n = 0 => rets[1].ctxerr)
                        /\ \A i \in 1..Len(h) : h[i].ev = "exec" => h[i].t0 <= cans[1].t,
    terminated   |-> Len(rets) = 1,
+   \* per item inside a batch: an item cut short by the cancellation (its last attempt failed and budget was left) carries
+   \* an error matching the context's error in its slot
+   itemCtxErr   |-> (cans # <<>> /\ cfg.n > 0 /\ ~cfg.stop) =>
+                       LET sl == SelectSeq(h, LAMBDA e : e.ev = "slot") IN
+                       sl # <<>> => \A p \in Pipes(h) : LET a == Attempts(h, p) IN
+                          (p >= 1 /\ p <= Len(sl[1].kinds) /\ ~a[Len(a)].ok /\ Len(a) < cfg.N) => sl[1].kinds[p] = 1,
    \* the wait ends with the next attempt unless a cancellation ended it: a run whose context was never cancelled
    \* makes every attempt of its budget (stop-on-error batches abandon the siblings of a failed item)
    waitCompletes |-> (cans = <<>> /\ ~cfg.stop) => \A p \in Pipes(h) : LET a == Attempts(h, p) IN
